@@ -62,6 +62,14 @@ def main():
         _m, _sp, v = materialise("vmdk", lambda s, kind=kind: s["mode"] == "single" and s["extents"][0]["kind"] == kind)
         for d, x in flips(v, 0, 4):
             cases.append((f"vmdk.{kind}.magic", d, lambda x=x: SparseDisk(io.BytesIO(x))))
+    # footer copy of the header (grain directory "at end"): its magic is gated like the leading one
+    try:
+        _m, _sp, v = materialise("vmdk", lambda s: s["mode"] == "single" and s["extents"][0]["kind"] in ("footer", "compressed"))
+        if len(v) >= 1024 and v[len(v) - 1024:len(v) - 1020] == b"KDMV":
+            for d, x in flips(v, len(v) - 1024, 4):
+                cases.append(("vmdk.footer.magic", d, lambda x=x: SparseDisk(io.BytesIO(x))))
+    except Exception:  # noqa: BLE001 -- no such base in this corpus: the gate is then covered by the shape obligation only
+        pass
     # ---- VHDX
     from dissect.hypervisor.disk.vhdx import VHDX
 
